@@ -50,6 +50,9 @@ def tasks(tier, prop='C03'):
                 if sorted(codes) != list(codes): continue
                 ts.append({'kind': 'main', 'allow': allow, 'sarif': sarif, 'codes': list(codes), 'prop': prop})
     for k in RUNNER_SHAPES(tier): ts.append(dict(k, prop=prop))
+    if prop == 'C03':
+        from . import sarif_h
+        ts += sarif_h.tasks(tier)
     return ts
 
 
@@ -80,6 +83,9 @@ def run_task(task):
     if task['kind'] == 'orders':
         from . import C09
         return C09.run_task(task['t'])
+    if task['kind'] == 'sarif':
+        from . import sarif_h
+        return sarif_h.run_task(pr, task)
     if task['kind'] == 'runner':
         from . import runner_h
         return runner_h.run_task(pr, task)
@@ -235,6 +241,11 @@ def main(tier, replay=None, prop='C03'):
     rep = common.Report(prop, tier)
     if replay:
         d = json.load(open(replay))
+        if d['scenario'].get('kind') == 'sarif':
+            from . import sarif_h
+            r = sarif_h.run_task(prog(), d['scenario']['task']); bad = bool(r['violations'])
+            for v in r['violations'][:2]: print('replay (re-execution of the conversion from the current MIR):', v['msg'][:200], v['model'])
+            print('replay: -> %s' % ('VIOLATION' if bad else 'holds')); return 1 if bad else 0
         if d['scenario'].get('kind') == 'orders':
             t = dict(d['scenario']['task']['t']); sh = d['violation']['model'].get('shape', 0); t.update(lo=sh, hi=sh + 1)
             from . import C09
@@ -266,14 +277,15 @@ def main(tier, replay=None, prop='C03'):
         rep.add_stats(r['stats'])
         for v in r['violations']:
             t = r['task']
-            if t['kind'] == 'orders':
-                role = {'function': 'run_side_effect_analysis', 'kind': v['kind'], 'class': 'hash-order'}; key = json.dumps(role, sort_keys=True)
+            if t['kind'] in ('orders', 'sarif'):
+                role = {'function': 'run_side_effect_analysis', 'kind': v['kind'], 'class': 'hash-order'} if t['kind'] == 'orders' else {'function': 'Report::to_sarif', 'kind': v['kind'], 'class': 'any'}
+                key = json.dumps(role, sort_keys=True)
                 if key in seen: continue
                 seen[key] = 1
                 k = common.match_known(known, role)
                 if k: rep.known_hits.append('%s (%s)' % (k['id'], v['msg'][:200]))
                 else:
-                    rep.violations.append(rep.save_replay(role, {'property': prop, 'scenario': {'kind': 'orders', 'task': t}, 'violation': v}))
+                    rep.violations.append(rep.save_replay(role, {'property': prop, 'scenario': {'kind': t['kind'], 'task': t}, 'violation': v}))
                     common.log('VIOLATION detail:', v['msg'][:600])
                 continue
             if t['kind'] == 'runner':
@@ -309,7 +321,9 @@ def main(tier, replay=None, prop='C03'):
     rep.stubs = ['Cli::parse (arbitrary options)', 'AnalysisRunner::{new,with_libraries,with_files,analyze_functions,analyze_templates,file_library} (offer arbitrary reports through the real ReportWriter impl)',
                  'FileLibrary::{user_inputs,to_storage}', 'Report::to_diagnostic + codespan term::emit (record the diagnostic)', 'SarifWriter::serialize_reports (records its argument)', 'LogWriter::write_message (records the text)', 'atty, termcolor, pretty_env_logger']
     rep.assumptions = ['hash-set of user file ids modelled as a bit set', 'source hash ' + '/'.join(pr.hashes[c] for c in ('cli', 'structure', 'analysis'))]
-    rep.outside = ['codespan rendering and serde_sarif serialisation', 'what the passes find', 'SARIF rule ids/levels/positions (conversion code not encoded)']
+    rep.bounds['sarif'] = 'Report::to_sarif / ReportLabel::to_sarif / FileID::to_uri on a report with symbolic category, 0..2 primary and 0..2 secondary labels with symbolic files and offsets: level, ruleId, message, one (related) location per label with the uri and region of that label'
+    rep.stubs.append('serde_sarif builders (generic record model: a setter stores its argument, build returns the record); FileLibrary storage: location(file, offset) as uninterpreted functions, file k named "f<k>"')
+    rep.outside = ['codespan rendering and serde_sarif serialisation', 'what the passes find', 'the rules / tool section of the SARIF file']
     return rep.finish()
 
 
